@@ -470,6 +470,8 @@ func drawC08(t *rapid.T) *Case {
 	p.BackendKeepAlive = drawBool(t, "beka", 40)
 	p.Fences = drawBool(t, "fences", 25)
 	p.WriteFences = focus || drawBool(t, "writefences", 30)
+	// 10%: the serve loop held back by the controller while an asynchronous write is in flight
+	p.ServeFences = drawBool(t, "servefences", 10)
 	// (until wave 7 held writes went with Content-Length responses only: a flush through
 	// maxLatencyWriter holds its mutex across the held write, and a wait for that mutex kept
 	// the bubble from becoming quiescent; lock waits count as blocked now, DESIGN 15.5b)
@@ -938,5 +940,5 @@ func clientTrailers(w *World, ci, ri int, tag string) map[string][]string {
 
 func init() {
 	register(&CheckDef{ID: "C08", Level: "exploration", Engine: "A", Draw: drawC08,
-		Rule: "1-3 clients (raw-frame HTTP/2 with up to 4 requests in flight, or HTTP/1.1 keep-alive), each request with a drawn method (GET/POST/PUT/DELETE/PATCH/OPTIONS/HEAD), path with percent-escapes and sub-delims, net/url-parseable query (repeated keys, empty values, escapes), 0-6 end-to-end header fields (empty, repeated, 1-6 kB, separators), User-Agent present or not, cookies (split into crumbs on HTTP/2), hop-by-hop and Connection-nominated fields, body of 0 / 1 / boundary / up to 3 MiB bytes sent as DATA frames or chunks of drawn sizes, with or without Content-Length, request trailers; back-end response with drawn status (incl. 204/304/HEAD), header set, body of the same size classes written in drawn pieces with flushes, trailers (announced, unannounced, both, two-valued); 10%: a 103 (Early Hints) informational response before the final one; 25% of the HTTP/1.1 clients pipeline their requests; 35% of the last HTTP/1.1 uploads of a connection carry Expect: 100-continue and hold their body back until a 100 arrives; 30%: a further HTTP/2 client that cancels large downloads part-way; 20%: a further HTTP/1.1 client that upgrades the protocol (101 through the reverse proxy) and exchanges 1-4 opaque messages of 1 B-40 kB with the back-end through the tunnel (request, 101 and every tunnel byte compared in both directions); 30%: frame writes held in flight by the controller (write fence), 12%: cancel focus (four cancelled downloads next to streamed multi-frame downloads, all writes fenced); 6%: every back-end dial held for 6-30 s (fault backend_slow_dial) under -timeout-http-read 5s with HTTP/2 clients only, whose uploads have arrived in full before the clock moves; 15%: a forward URL with a path prefix (/base, /svc/v1, /a%20b; the back-end must see prefix + the client's request target); request hosts as plain names, with :443 / :8443, IPv6 and IPv4 literals, mixed case (30%); -preserve-host on/off, back-end keep-alive on/off, any write scheduler, segmentation in both directions; delivery order by the controller. Oracle: comparator in both directions (names case-insensitive, values / multiplicity / order exact, hop-by-hop set removed, Host rule, bodies byte-exact, trailers). Non-trivial: at least one request reached the back-end. Distinct: distinct controller action-label sequences."})
+		Rule: "1-3 clients (raw-frame HTTP/2 with up to 4 requests in flight, or HTTP/1.1 keep-alive), each request with a drawn method (GET/POST/PUT/DELETE/PATCH/OPTIONS/HEAD), path with percent-escapes and sub-delims, net/url-parseable query (repeated keys, empty values, escapes), 0-6 end-to-end header fields (empty, repeated, 1-6 kB, separators), User-Agent present or not, cookies (split into crumbs on HTTP/2), hop-by-hop and Connection-nominated fields, body of 0 / 1 / boundary / up to 3 MiB bytes sent as DATA frames or chunks of drawn sizes, with or without Content-Length, request trailers; back-end response with drawn status (incl. 204/304/HEAD), header set, body of the same size classes written in drawn pieces with flushes, trailers (announced, unannounced, both, two-valued); 10%: a 103 (Early Hints) informational response before the final one; 25% of the HTTP/1.1 clients pipeline their requests; 35% of the last HTTP/1.1 uploads of a connection carry Expect: 100-continue and hold their body back until a 100 arrives; 30%: a further HTTP/2 client that cancels large downloads part-way; 20%: a further HTTP/1.1 client that upgrades the protocol (101 through the reverse proxy) and exchanges 1-4 opaque messages of 1 B-40 kB with the back-end through the tunnel (request, 101 and every tunnel byte compared in both directions); 30%: frame writes held in flight by the controller (write fence), 10%: the serve loop held back while an asynchronous write is in flight (serve fence), 12%: cancel focus (four cancelled downloads next to streamed multi-frame downloads, all writes fenced); 6%: every back-end dial held for 6-30 s (fault backend_slow_dial) under -timeout-http-read 5s with HTTP/2 clients only, whose uploads have arrived in full before the clock moves; 15%: a forward URL with a path prefix (/base, /svc/v1, /a%20b; the back-end must see prefix + the client's request target); request hosts as plain names, with :443 / :8443, IPv6 and IPv4 literals, mixed case (30%); -preserve-host on/off, back-end keep-alive on/off, any write scheduler, segmentation in both directions; delivery order by the controller. Oracle: comparator in both directions (names case-insensitive, values / multiplicity / order exact, hop-by-hop set removed, Host rule, bodies byte-exact, trailers). Non-trivial: at least one request reached the back-end. Distinct: distinct controller action-label sequences."})
 }
